@@ -410,6 +410,18 @@ func Judge(cs Case, res Result) []Failure {
 				}
 			}
 		}
+		if claimedReady && cs.St0&Ready == 0 {
+			// the ready bit came from a feature's own mask (BindResource does that): the clause
+			// "no eligible mandatory feature of the last advertisement left un-negotiated" still
+			// applies (review A, C01-1; Lean: C01_ready_sound_feat_fails)
+			for ns, o := range cache {
+				b := cfg[o.idx]
+				if o.req && b.Negotiable && !negd[ns] && b.Eligible(res.State&^Ready) {
+					add("C01", "ready-sound", "feature-ready-leaves-mandatory", "established through the ready bit of a feature's own mask although mandatory %s of the last features list is eligible and was not negotiated", b.Name())
+					break
+				}
+			}
+		}
 		if !claimedReady {
 			for ns, o := range cache {
 				b := cfg[o.idx]
